@@ -186,9 +186,16 @@ func (g grpcWebClientProtocol) encodeEnd(op *operation, end *responseEnd, writer
 	}
 	trailers := make(http.Header, len(end.trailers)+3)
 	grpcWriteEndToTrailers(end, trailers)
+	// The names in the trailer frame must be lower-case (PROTOCOL-WEB.md): the
+	// official gRPC-Web client looks up "grpc-status" case-sensitively.
+	frame := make(http.Header, len(trailers))
+	for _, key := range slices.Sorted(maps.Keys(trailers)) {
+		lower := strings.ToLower(key)
+		frame[lower] = append(frame[lower], trailers[key]...)
+	}
 	buffer := op.bufferPool.Get()
 	defer op.bufferPool.Put(buffer)
-	_ = trailers.Write(buffer)
+	_ = frame.Write(buffer)
 	// TODO: Send envelope compressed if possible.
 	length := int64(len(buffer.Bytes()))
 	if length > math.MaxUint32 {
